@@ -45,9 +45,14 @@ package directive
 //@   modifies je.includeTrace
 //@   ensures true
 
+// C02: the include chain attached by makeError is the receiver's, so the location must be the receiver's too - its keyword
+// or a place in its body - and only the three constructors below may call it (a new helper that borrows the tracer of
+// one directive for the coordinates of another is reported by the callers scan).
+//@ callers [C02] (Directive).makeError : (Directive).KeywordError, (Directive).BodyError, (Directive).BodyErrorIndex
 //@ func (Directive).makeError
 //@   tag C02 C01
 //@   requires file != nil && begin <= len(file.content) && !isnil(d.includeTracer)
+//@   requires [C02] (file == d.keywordCoords.file && begin == d.keywordCoords.begin) || (file == d.BodyCoords.file && d.BodyCoords.begin <= begin)
 //@   modifies nothing
 //@   ensures ret != nil && ret.file == file && ret.index == begin
 
